@@ -1,6 +1,6 @@
 SPECIFICATION BuildSpec
 CONSTANTS
-  Letters <- LettersGen
+  Letters <- LettersPdf
   MaxLen = 4
   PSteps = {1}
   PathAlg = "stack"
